@@ -9,6 +9,9 @@ EXPLANATION = ('Decided from MIR terms: (R03.1) link dependence: element i of th
                'form) in forward and in forward_with_joint_poses, with one index i per term; (R03.4) every geometric parameter occurs in the '
                'translation of forward.  That the closed-form matrix of forward equals the chain product is a trigonometric identity and is '
                'not decided.')
+EXPLANATION += (' (R03.5) the closed form of forward equals, entry by entry as polynomials over sin/cos atoms of the corrected joint angles, the '
+                'published OPW forward kinematics (Brandstoetter et al. 2014): wrist centre (cx0, cy0, cz0), the rotation matrices R_0c and R_ce, '
+                'pose = (wrist centre + c4 * R_0c * R_ce * z, R_0c * R_ce).')
 NOT_DECIDED = 'equality of the closed-form matrix in forward() with the product of the six elementary transforms (trigonometric identity); hence also "last link pose equals forward"'
 ASSUMPTIONS = ['UnitQuaternion::from_axis_angle on a unit axis yields a proper unit rotation', 'spec/opw_chain.json is the OPW model (Brandstoetter et al.)']
 
@@ -115,8 +118,94 @@ def joint_angles_fwd(ctx, b):
     return out
 
 
+def trig_atomize(t):
+    """sin_cos(x).0 -> sin(x), sin_cos(x).1 -> cos(x) so that both spellings are one atom"""
+    if isinstance(t, tuple) and t[0] == 'fld' and t[2] in ('0', '1') and isinstance(strip(t[1]), tuple) and strip(t[1])[0] == 'call' and cname(strip(t[1])[1]) == 'f64::sin_cos':
+        return ('call', 'std::f64::<impl f64>::' + ('sin' if t[2] == '0' else 'cos'), algebra.canon(strip(t[1])[2]))
+    return None
+
+
+class TrigRing(algebra.Ring):
+    def _nf(self, t):
+        r = trig_atomize(t) if isinstance(t, tuple) else None
+        if r is not None:
+            return super()._nf(r)
+        return super()._nf(t)
+
+
+def spec_forward(q):
+    """published closed form; q = [q1..q6] corrected joint angle terms.  Returns (wrist centre xyz, R_0c entries, R_ce entries)."""
+    from .C02 import P_, _call, _b
+    add, sub, mul = (lambda x, y: _b('Add', x, y)), (lambda x, y: _b('Sub', x, y)), (lambda x, y: _b('Mul', x, y))
+    neg = lambda x: ('un', 'Neg', x)
+    S = [None] + [_call('sin', x) for x in q]
+    C = [None] + [_call('cos', x) for x in q]
+    a1, a2, bb, c1, c2, c3 = P_('a1'), P_('a2'), P_('b'), P_('c1'), P_('c2'), P_('c3')
+    psi3 = _call('atan2', a2, c3)
+    k = _call('sqrt', add(mul(a2, a2), mul(c3, c3)))
+    q23 = add(add(q[1], q[2]), psi3)
+    cx1 = add(add(mul(c2, S[2]), mul(k, _call('sin', q23))), a1)
+    cy1 = bb
+    cz1 = add(mul(c2, C[2]), mul(k, _call('cos', q23)))
+    centre = [sub(mul(cx1, C[1]), mul(cy1, S[1])), add(mul(cx1, S[1]), mul(cy1, C[1])), add(cz1, c1)]
+    m3 = lambda x, y, z: mul(mul(x, y), z)
+    zero = ('const', 'f64', 0.0)
+    r0c = [sub(m3(C[1], C[2], C[3]), m3(C[1], S[2], S[3])), neg(S[1]), add(m3(C[1], C[2], S[3]), m3(C[1], S[2], C[3])),
+           sub(m3(S[1], C[2], C[3]), m3(S[1], S[2], S[3])), C[1], add(m3(S[1], C[2], S[3]), m3(S[1], S[2], C[3])),
+           sub(mul(neg(S[2]), C[3]), mul(C[2], S[3])), zero, add(mul(neg(S[2]), S[3]), mul(C[2], C[3]))]
+    rce = [sub(m3(C[4], C[5], C[6]), mul(S[4], S[6])), sub(m3(neg(C[4]), C[5], S[6]), mul(S[4], C[6])), mul(C[4], S[5]),
+           add(m3(S[4], C[5], C[6]), mul(C[4], S[6])), add(m3(neg(S[4]), C[5], S[6]), mul(C[4], C[6])), mul(S[4], S[5]),
+           mul(neg(S[5]), C[6]), mul(S[5], S[6]), C[5]]
+    return centre, r0c, rce
+
+
+def closed_form(ctx, fwd, qa):
+    """R03.5"""
+    ring = TrigRing(unit_square=sign_atom)
+    rt = strip(fwd.return_term())
+    if not ctx.check(isinstance(rt, tuple) and rt[0] == 'call' and cname(rt[1]).endswith('::from_parts'), 'R03.5', 'shape', fwd.where(0), fwd.path, 'forward must return from_parts(translation, rotation)'):
+        return
+    tr, rot = strip(rt[2]), strip(rt[3])
+    while isinstance(tr, tuple) and tr[0] == 'call' and cname(tr[1]).split('::')[-1] in ('from', 'into'):
+        tr = strip(tr[2])
+    mats = []
+
+    def f(x):
+        if x[0] == 'call' and cname(x[1]).endswith('Matrix::new') and len(x) == 11:
+            if x not in mats:
+                mats.append(x)
+    mir.walk(rot, f)
+    q = [algebra.canon(qa[i]) for i in range(6)]
+    centre, r0c, rce = spec_forward(q)
+    ok_shape = len(mats) == 2
+    if ctx.check(ok_shape, 'R03.5', 'rotation-factors', fwd.where(0), fwd.path, 'the rotation must be the product of two explicit 3x3 matrices (R_0c * R_ce)', found=len(mats)):
+        # product order: rot = ... Mul::mul(A, B)
+        prod = [x for x in mir.subterms(rot, lambda x: x[0] == 'call' and cname(x[1]).endswith('::mul') and len(x) == 4 and strip(x[2]) in mats and strip(x[3]) in mats)]
+        if ctx.check(len(prod) >= 1, 'R03.5', 'rotation-product', fwd.where(0), fwd.path, 'R_0c * R_ce product not found'):
+            A, B = strip(prod[0][2]), strip(prod[0][3])
+            for name, M, spec in (('R_0c', A, r0c), ('R_ce', B, rce)):
+                for k in range(9):
+                    ok = (ring.nf(algebra.canon(M[2 + k])) - ring.nf(algebra.canon(spec[k]))).is_zero()
+                    ctx.check(ok, 'R03.5', '%s[%d][%d]' % (name, k // 3, k % 3), fwd.where(0), fwd.path,
+                              'entry (%d,%d) of %s differs from the published closed form' % (k // 3, k % 3, name), found=show(M[2 + k], maxdepth=5), expected=show(spec[k], maxdepth=5), detail='matches')
+            # translation = centre + c4 * (A*B) * unit_z
+            ok = False
+            if isinstance(tr, tuple) and tr[0] == 'call' and cname(tr[1]).endswith('::add'):
+                cen, tip = strip(tr[2]), strip(tr[3])
+                if isinstance(cen, tuple) and cen[0] == 'call' and cname(cen[1]).endswith('Matrix::new') and len(cen) == 5:
+                    for k in range(3):
+                        okc = (ring.nf(algebra.canon(cen[2 + k])) - ring.nf(algebra.canon(centre[k]))).is_zero()
+                        ctx.check(okc, 'R03.5', 'wrist-centre[%s]' % 'xyz'[k], fwd.where(0), fwd.path,
+                                  'the %s coordinate of the wrist centre differs from the published closed form' % 'xyz'[k], found=show(cen[2 + k], maxdepth=6), expected=show(centre[k], maxdepth=6), detail='matches')
+                    w = algebra.word(tip)
+                    names = [show(a, maxdepth=2) for a, e in w]
+                    ok = len(w) == 4 and all(e == 1 for a, e in w) and 'c4' in names[0] and w[1][0] == algebra.canon(A) and w[2][0] == algebra.canon(B) and 'unit_z' in names[3]
+            ctx.check(ok, 'R03.5', 'flange-offset', fwd.where(0), fwd.path, 'the tool flange must be wrist centre + c4 * R_0c * R_ce * z', found=show(tr, maxdepth=3))
+
+
 def run(ctx):
     prog = ctx.prog
+    ctx.rule('R03.5', 'closed form of forward == published OPW forward kinematics (wrist centre, R_0c, R_ce, flange offset), as polynomials over sin/cos atoms')
     ctx.rule('R03.1', 'link pose i depends on exactly joints[0..=i] and the parameter sets {c1} < {a1,b} < {c2} < {a2} < {c3} < {c4}')
     ctx.rule('R03.2', 'pose_k = pose_(k-1) * (T_k, R(axis_k, q_k)) with the OPW axis/offset table; rotations only by from_axis_angle on unit axes')
     ctx.rule('R03.3', 'q_i == joints[i]*sign[i] - offsets[i] as polynomials, in forward and in forward_with_joint_poses')
@@ -136,6 +225,9 @@ def run(ctx):
         ctx.check(ok, 'R03.3', 'forward/q%d' % (i + 1), fwd.where(0), fwd.path,
                   'joint %d enters the closed form as %s, expected joints[%d]*sign[%d] - offsets[%d]' % (i + 1, show(qa.get(i), maxdepth=6), i, i, i),
                   found=show(qa.get(i), maxdepth=6), detail='j*s - o')
+
+    if len(qa) == 6:
+        closed_form(ctx, fwd, qa)
 
     # ---- chain
     ret = strip(fwp.return_term())
